@@ -38,21 +38,15 @@ namespace {
                 ll::no_auto_start_advertising >( "vmap-vint-noauto", false, 0, false ),
             // 1: all defaults
             make_cfg< cfg< false, false, false, 0 >, radio >( "defaults", false, 100, false ),
-            // 2: variable map, fixed 30 ms, automatic start, non connectable
-            make_cfg< cfg< true, false, false, 0, T_NONCONN >, radio, ll::variable_advertising_channel_map, ll::advertising_interval< 30 >,
-                ll::non_connectable_undirected_advertising >( "vmap-int30-auto-nonconn", false, 30 ),
-            // 3: four advertising types, everything variable
+            // 2: four advertising types, everything variable
             make_cfg< cfg< true, true, true, 0, T_UNDIRECTED, T_DIRECTED, T_SCANNABLE, T_NONCONN >, radio, ll::variable_advertising_channel_map,
                 ll::variable_advertising_interval, ll::no_auto_start_advertising, ll::connectable_undirected_advertising,
                 ll::connectable_directed_advertising, ll::scannable_undirected_advertising, ll::non_connectable_undirected_advertising >(
                 "vmap-vint-noauto-multi4", false, 0 ),
-            // 4: scannable, gap layout
+            // 3: scannable, fixed interval of 30 ms, gap layout
             make_cfg< cfg< true, false, true, 0, T_SCANNABLE >, radio_gap, ll::variable_advertising_channel_map, ll::no_auto_start_advertising,
-                ll::scannable_undirected_advertising >( "vmap-noauto-scannable-gap", true, 100 ),
-            // 5: directed only, fixed map
-            make_cfg< cfg< false, true, true, 0, T_DIRECTED >, radio, ll::variable_advertising_interval, ll::no_auto_start_advertising,
-                ll::connectable_directed_advertising >( "allmap-vint-noauto-directed", false, 0 ),
-            // 6: two types, automatic start, gap layout
+                ll::advertising_interval< 30 >, ll::scannable_undirected_advertising >( "vmap-int30-noauto-scannable-gap", true, 30 ),
+            // 4: two types, automatic start, gap layout
             make_cfg< cfg< true, true, false, 0, T_UNDIRECTED, T_SCANNABLE >, radio_gap, ll::variable_advertising_channel_map,
                 ll::variable_advertising_interval, ll::connectable_undirected_advertising, ll::scannable_undirected_advertising >(
                 "vmap-vint-auto-multi2-gap", true, 0 ),
